@@ -22,7 +22,7 @@ type rtCase struct {
 	kp, ks   int
 	km       int      // number of times the metrics middleware is registered (the property speaks of once)
 	script   []bool   // innermost publisher: true = that Publish call fails
-	outcomes []string // s<k> success with k outputs | e error | p panic
+	outcomes []string // s<k> success with k outputs | e error | p panic | t<pre>-<post> pass-through: pre fresh, the consumed message itself, post fresh
 }
 
 func (c rtCase) head() string {
@@ -119,12 +119,26 @@ func runRt(c rtCase) (string, string) {
 		case 'p':
 			panic("scripted handler panic")
 		}
-		k, _ := strconv.Atoi(o[1:])
-		outs := make([]*message.Message, k)
-		for i := range outs {
-			outs[i] = message.NewMessage(msg.UUID+"o"+wh.Itoa(i), []byte("o"))
+		fresh := func(k int, tag string) []*message.Message {
+			outs := make([]*message.Message, k)
+			for i := range outs {
+				outs[i] = message.NewMessage(msg.UUID+tag+wh.Itoa(i), []byte("o"))
+			}
+			return outs
 		}
-		return outs, nil
+		if o[0] == 't' {
+			// pass-through: the consumed message object itself is part of the output
+			p := strings.SplitN(o[1:], "-", 2)
+			pre, _ := strconv.Atoi(p[0])
+			post := 0
+			if len(p) == 2 {
+				post, _ = strconv.Atoi(p[1])
+			}
+			outs := append(fresh(pre, "a"), msg)
+			return append(outs, fresh(post, "b")...), nil
+		}
+		k, _ := strconv.Atoi(o[1:])
+		return fresh(k, "o"), nil
 	})
 	done := make(chan struct{})
 	go func() {
